@@ -138,8 +138,16 @@ class KnownFindings(object):
         for fn in files:
             if not os.path.exists(fn):
                 continue
-            with open(fn) as fh:
-                data = json.load(fh)
+            data = None
+            for attempt in range(5):       # fragments may be mid-write while several people edit them
+                try:
+                    with open(fn) as fh:
+                        data = json.load(fh)
+                    break
+                except ValueError:
+                    time.sleep(0.3)
+            if data is None:
+                raise HarnessError("cannot parse %s" % fn)
             for e in data.get("findings", []):
                 if e.get("property") == prop:
                     self.entries.append(e)
